@@ -214,18 +214,40 @@ def enqueueAfter (s : Sys) (key : String) (t : Int) : Sys :=
 pods of this engine (no DeadlineExceeded without start time) -/
 def podTask (p : PodObj) : Option Task := p.pod.task
 
-/-- `getTaskForRef`: cache, else (for an unfinished ref) a live GET -/
+/-- `taskMgr.Client().Get`: the Pod as it is on the server right now -/
+def liveGetTask (s : Sys) (name : String) : Option Task :=
+  match findPod s.pods name with
+  | some p => podTask p
+  | none => none
+
+/-- `getTaskForRef`: the cached Pod, unless it is older than what was recorded (the ref is
+finished but the cached Pod is not: the cache lags behind an earlier live read) — then, and for
+an unfinished ref that is missing from the cache, a live GET.  A finished ref missing from the
+cache is gone. -/
 def getTaskForRef (s : Sys) (ref : TaskRef) : Option Task :=
   match findPod s.podCache ref.name with
-  | some p => podTask p
+  | some p =>
+    match podTask p with
+    | none => none
+    | some t =>
+      if ref.finishTimestamp.isNone || t.ref.finishTimestamp.isSome then some t
+      else liveGetTask s ref.name
   | none =>
     if ref.finishTimestamp.isSome then none
-    else match findPod s.pods ref.name with
-      | some p => podTask p
-      | none => none
+    else liveGetTask s ref.name
 
 def tasksForRefs (s : Sys) (refs : List TaskRef) : List Task :=
   refs.filterMap (getTaskForRef s)
+
+/-- the finalizer's lookup: like `getTaskForRef`, but an absence is always confirmed with a live
+GET (fix 27db662) -/
+def getTaskForRefConfirmed (s : Sys) (ref : TaskRef) : Option Task :=
+  match getTaskForRef s ref with
+  | some t => some t
+  | none => liveGetTask s ref.name
+
+def tasksForRefsConfirmed (s : Sys) (refs : List TaskRef) : List Task :=
+  refs.filterMap (getTaskForRefConfirmed s)
 
 /-- The deletion override of `UpdateJobStatusFromTaskRefs` takes the ADDRESS of the Running
 condition's `LatestRunningTimestamp` (a value) and of a local copy of its
@@ -412,7 +434,7 @@ def handleFinalizer (s : Sys) (jo : JobObj) (rj : Job) (finalizer : Bool) : Sys 
   if rj.deletionTimestamp.isNone then (s, some (rj, finalizer))
   else if !finalizer then (s, some (rj, finalizer))
   else
-    let tasks := tasksForRefs s rj.status.tasks
+    let tasks := tasksForRefsConfirmed s rj.status.tasks
     if !tasks.isEmpty then
       let rj1 := tasks.foldl (fun acc t => updateTaskRefDeletedStatusIfNotSet acc t.name
         { state := .terminated, result := .killed, reason := "JobDeleted" }) rj
@@ -429,7 +451,7 @@ def finalizerStatusInput (s : Sys) (rj : Job) (finalizer : Bool) : Option Job :=
   if rj.deletionTimestamp.isNone then none
   else if !finalizer then none
   else
-    let tasks := tasksForRefs s rj.status.tasks
+    let tasks := tasksForRefsConfirmed s rj.status.tasks
     if !tasks.isEmpty then
       let rj1 := tasks.foldl (fun acc t => updateTaskRefDeletedStatusIfNotSet acc t.name
         { state := .terminated, result := .killed, reason := "JobDeleted" }) rj
